@@ -9,7 +9,9 @@ The theorems hold for every implementation and request with `Spec.covered I lr`.
 
 Everything is stated for all logical requests (any method, host, path, query, header lines, body), all rule sets (any
 routing table of `Model/Repo.lean`, any pipelines built from conditions and templates over the request view), any
-decoder library, both ways Envoy delivers a body, all three entry points. The two side conditions are the decidable
+decoder library, both ways Envoy delivers a body, every log level the services run with (`LogLevel`, consulted by the
+`dump` middleware of the HTTP based services), all three entry points. Bodies are arbitrary byte strings: no statement
+and no function of the model bounds their length. The two side conditions are the decidable
 predicates `Spec.covered` (a repaired implementation; a logical request: a path `net/http` accepts — octets that may
 not stand in a path only if the Envoy request context encodes them too, known finding `C13-envoy-raw-path-octets` —,
 header names that are tokens and none of the hop headers, at most one `Cookie` line) and `Spec.singleValued` (no upstream header collected twice — the
@@ -26,10 +28,11 @@ and query as written, no captures yet) and the reference view functions (`Header
 and for `Host`, `Cookie`, decoded `Body`) — whichever carrier brought the request (HTTP/1.1 message parsed by
 `net/http`; `CheckRequest` with the body in either field). Only the `Headers()` map differs, and exactly by the `Host`
 entry (`Spec.headersMapAt`, known finding `C13-headers-host-entry`). -/
-theorem c13_same_view (D : Decoder) (pack : Bool) {I : Impl} (lr : LReq) (hwf : Spec.covered I lr = true) (ep : EP) :
-    mkCtx I D pack ep lr =
+theorem c13_same_view (D : Decoder) (level : LogLevel) (pack : Bool) {I : Impl} (lr : LReq)
+    (hwf : Spec.covered I lr = true) (ep : EP) :
+    mkCtx I D level pack ep lr =
       some { ctx := { caches := true, fresh := Spec.obj lr }, funcs := Spec.funcs D lr,
-             headersMap := Spec.headersMapAt ep lr, client := Spec.headersMap lr } := by
+             headersMap := Spec.headersMapAt ep lr, client := Spec.headersMap lr, payload := Spec.payload lr } := by
   simp only [Spec.covered, Spec.repaired, Spec.wellFormed, Bool.and_eq_true, Bool.or_eq_true] at hwf
   obtain ⟨⟨⟨⟨⟨⟨hI1, hI2⟩, hI3⟩, hI4⟩, hI5⟩, ⟨hp, hh⟩, hc⟩, henc⟩ := hwf
   have hq : '?' ∉ lr.rawPath := by
@@ -42,13 +45,13 @@ theorem c13_same_view (D : Decoder) (pack : Bool) {I : Impl} (lr : LReq) (hwf : 
     rfl
   | decision =>
     obtain ⟨r, hr, hm, hho, ht, he, hq, hhd, hb⟩ := toHTTP_some lr hp
-    simp only [mkCtx, hr, Option.map_some, httpObj_eq lr r hm hho ht he hq, httpFuncs_eq D lr r hh hho hhd hb,
-      httpHeadersMap, hhd, strip_plain hh, hho, map_canon_group]
+    simp only [mkCtx, hr, Option.map_some, dumpMiddleware_id, httpObj_eq lr r hm hho ht he hq,
+      httpFuncs_eq D lr r hh hho hhd hb, httpHeadersMap, hhd, strip_plain hh, hho, map_canon_group, hb, httpBody_getD]
     rfl
   | proxy =>
     obtain ⟨r, hr, hm, hho, ht, he, hq, hhd, hb⟩ := toHTTP_some lr hp
-    simp only [mkCtx, hr, Option.map_some, httpObj_eq lr r hm hho ht he hq, httpFuncs_eq D lr r hh hho hhd hb,
-      httpHeadersMap, hhd, strip_plain hh, hho, map_canon_group]
+    simp only [mkCtx, hr, Option.map_some, dumpMiddleware_id, httpObj_eq lr r hm hho ht he hq,
+      httpFuncs_eq D lr r hh hho hhd hb, httpHeadersMap, hhd, strip_plain hh, hho, map_canon_group, hb, httpBody_getD]
     rfl
 
 /-- a well-formed logical request with an escaped path, a query, a header sent twice in different spellings,
@@ -116,7 +119,7 @@ decision, the view shown to the mechanisms (with the captures), cookies and head
 header values as `Spec.handOver` says. -/
 theorem c13_refines_reference (cfg : Cfg) (pack : Bool) {I : Impl} (lr : LReq) (hwf : Spec.covered I lr = true) (ep : EP) :
     serve I cfg pack ep lr = some (Spec.delivered cfg.respond lr ep (Spec.serve cfg lr)) := by
-  simp only [serve, c13_same_view cfg.D pack lr hwf ep, Option.map_some, Spec.serve]
+  simp only [serve, c13_same_view cfg.D cfg.logLevel pack lr hwf ep, Option.map_some, Spec.serve]
   exact congrArg some (execute_caching cfg lr (Spec.funcs cfg.D lr) ep (Spec.obj lr))
 
 /-- the Envoy service hands over all values; the others do when nothing was collected twice -/
@@ -274,6 +277,70 @@ theorem c13_captures_survive (cfg : Cfg) (pack : Bool) {I : Impl} (lr : LReq) (h
 theorem c13_body_field_irrelevant (cfg : Cfg) {I : Impl} (lr : LReq) (hwf : Spec.covered I lr = true) (ep : EP) :
     serve I cfg true ep lr = serve I cfg false ep lr := by
   rw [c13_refines_reference cfg true lr hwf ep, c13_refines_reference cfg false lr hwf ep]
+
+/-! ## The log level of the services and the length of the body -/
+
+/-- **The view does not depend on the log level.** The services are created with the logger of the configured
+`log.level`; the HTTP based services then run the `dump` middleware, which at level `trace` drains the body of the
+request into the log and restores it (`dumpMiddleware`), the pipeline code writes more or fewer log lines — but the
+request context an entry point creates (the `Request()` cell, `Header`, `Cookie`, decoded `Body`, `Headers()`, the
+payload held for the upstream) and the whole answer (decision, status, view shown to the mechanisms, headers, cookies
+and payload for the upstream side) are the same at every level. For every implementation variant, logical request
+(well-formed or not, body of any length), rule set, decoder library, body attribute and entry point; no hypothesis. -/
+theorem c13_view_independent_of_log_level (I : Impl) (cfg : Cfg) (level : LogLevel) (pack : Bool) (ep : EP) (lr : LReq) :
+    mkCtx I cfg.D level pack ep lr = mkCtx I cfg.D cfg.logLevel pack ep lr ∧
+    serve I { cfg with logLevel := level } pack ep lr = serve I cfg pack ep lr := by
+  have hm : ∀ l, mkCtx I cfg.D l pack ep lr = mkCtx I cfg.D .disabled pack ep lr := by
+    intro l
+    cases ep <;> simp only [mkCtx, dumpMiddleware_id]
+  refine ⟨by rw [hm level, hm cfg.logLevel], ?_⟩
+  simp only [serve, hm level, hm cfg.logLevel]
+  rfl
+
+/-- a witness the tie replays at every level: the request of `witnessReq` at `trace` and at `disabled` -/
+example (D : Decoder) : (mkCtx Impl.fixed D .trace true .decision witnessReq).map (·.payload) = some b!"{\"k\":\"v\"}" ∧
+    (mkCtx Impl.fixed D .disabled true .proxy witnessReq).map (·.payload) = some b!"{\"k\":\"v\"}" := by
+  constructor <;> rfl
+
+/-- **Same decoded body and same payload for a body of any length, at every log level.** `b` is an arbitrary
+non-empty byte string — there is no bound on its length anywhere in the statement or in the model (`drainBody`,
+`Body()` and Envoy's buffered copy hold the whole body): every entry point shows the pipeline `b` decoded according to
+the `Content-Type` of the request (the raw bytes if there is no decoder for it or decoding fails) and holds exactly
+`b` as the payload for the upstream. (For no body or no bytes the view is the empty string: `c13_same_view`.) -/
+theorem c13_same_body (D : Decoder) (level : LogLevel) (pack : Bool) {I : Impl} (lr : LReq)
+    (hwf : Spec.covered I lr = true) (ep : EP) (b : Bytes) (hb : lr.body = some b) (hne : b ≠ []) :
+    (mkCtx I D level pack ep lr).map (·.funcs.body) = some (decodeBody D (Spec.header lr b!"Content-Type") b) ∧
+    (mkCtx I D level pack ep lr).map (·.payload) = some b := by
+  rw [c13_same_view D level pack lr hwf ep]
+  have he : b.isEmpty = false := by cases b <;> simp_all
+  simp [Spec.funcs, Spec.body, Spec.payload, hb, he]
+
+/-- a JSON body `{"data":"x…x"}` with `n` letters -/
+def bodyOf (n : Nat) : Bytes := b!"{\"data\":\"" ++ List.replicate n 'x' ++ b!"\"}"
+
+theorem bodyOf_length (n : Nat) : (bodyOf n).length = n + 11 := by
+  simp only [bodyOf, List.length_append, List.length_replicate, List.length_cons, List.length_nil]
+  omega
+
+/-- a request with a JSON body of 300 011 bytes (well above the 16 KiB at which a bounded dump would stop) -/
+def witnessBig : LReq := { witnessReq with body := some (bodyOf 300000) }
+
+example : Spec.covered Impl.fixed witnessBig = true ∧ witnessBig.body = some (bodyOf 300000) := ⟨by decide, rfl⟩
+
+example : bodyOf 300000 ≠ [] ∧ (bodyOf 300000).length = 300000 + 11 := by
+  refine ⟨fun h => ?_, bodyOf_length _⟩
+  have hl := congrArg List.length h
+  rw [bodyOf_length] at hl
+  exact absurd hl (by simp)
+
+/-- **The upstream receives the payload the client sent**, whenever the request is allowed — at every entry point,
+at every log level, for a body of any length. -/
+theorem c13_same_payload (cfg : Cfg) (pack : Bool) {I : Impl} (lr : LReq) (hwf : Spec.covered I lr = true) (ep : EP)
+    (out : Outcome) (hs : serve I cfg pack ep lr = some out) (hok : out.dec = .ok) :
+    out.upBody = lr.body.getD [] := by
+  rw [c13_refines_reference cfg pack lr hwf] at hs
+  cases hs
+  exact answerWith_upBody _ _ _ _ _ hok
 
 /-! ## Known findings (kept in the model; the statements above say exactly where they bite) -/
 
